@@ -7,7 +7,8 @@ package jsonSubProto
 
 // C12: a frame naming an unregistered transfer filter is refused
 //@ func (*jsonSubProto).Unpack
-//@   property C12
+//@   property C12 C04
+//@   ensures[status-field-decoded] @C04 result == nil ==> as(m, type(*socket.message)).status != nil && as(m, type(*socket.message)).status.#fromWire
 //@   requires[no-pending-refusal] !ghost.appendFailed
 //@   ensures[refusal-propagated] result == nil ==> !ghost.appendFailed
 //@   loop 0: invariant[no-refusal-yet] !ghost.appendFailed
